@@ -70,6 +70,9 @@ def cases(tier, seed, shard, nshards):
                 if idx % nshards == shard:
                     yield {"maxsize": maxsize, "typed": False, "form": "paren", "kind": "function", "ops": list(hist),
                            "enumerated": True, "exc": PLANNED_NAMES[(idx // nshards) % len(PLANNED_NAMES)]}
+    for k, (maxsize, typed, form) in enumerate(itertools.product([None, 0, 1, 3], [False, True], ["paren", "bare"])):
+        if k % nshards == shard:
+            yield {"kind": "attrs", "maxsize": maxsize, "typed": typed, "form": form}
     rng = random.Random(f"C10-{seed}-{shard}")
     # re-entrant histories: the wrapped function calls its own cache for other arguments (recursion deeper than
     # maxsize, shared sub-problems); still one sequential history, with a synchronous twin under functools
@@ -340,9 +343,60 @@ def run_reentrant(case, stats):
     return {"violations": viols, "nontrivial": bool(deep and info[0]), "sig": ("reentrant", str(case))}
 
 
+def run_attrs(case, stats):
+    """The cache object presents the wrapped function like functools.lru_cache does (function and bound method)."""
+    CTX.reset()
+
+    def deco(mod, fn):
+        if case["form"] == "bare":
+            return mod.lru_cache(fn)
+        return mod.lru_cache(maxsize=case["maxsize"], typed=case["typed"])(fn)
+
+    async def af(self_or_x: int, y: "str" = "d") -> tuple:
+        """the docstring"""
+        return (self_or_x, y)
+
+    def sf(self_or_x: int, y: "str" = "d") -> tuple:
+        """the docstring"""
+        return (self_or_x, y)
+
+    af.marker = sf.marker = "custom attribute"
+    ca, cs = deco(A, af), deco(functools, sf)
+    KA = type("KA", (), {"m": ca})
+    KS = type("KS", (), {"m": cs})
+    ia, is_ = KA(), KS()
+    viols = []
+    head = f"lru_cache maxsize={case['maxsize']} typed={case['typed']} form={case['form']}"
+    for where, a_obj, s_obj in (("function", ca, cs), ("bound method", ia.m, is_.m), ("via class", KA.m, KS.m)):
+        # (the values of introspection attributes are not part of the property; they are only exercised: looking
+        # them up must work wherever it works for functools, which keeps the delegation code under observation)
+        for name in ("__name__", "__qualname__", "__doc__", "__module__", "__annotations__", "marker", "__wrapped__"):
+            ga = _outcome(lambda: getattr(a_obj, name))
+            gs = _outcome(lambda: getattr(s_obj, name))
+            if ga[0] != gs[0]:
+                viols.append({"key": "lru_cache/attributes", "msg": f"{head}: {name} of the {where}: {ga} vs functools {gs}"})
+        if _outcome(lambda: bool(repr(a_obj)))[0] != "ok":
+            viols.append({"key": "lru_cache/attributes", "msg": f"{head}: repr of the {where} raised"})
+    # a bound cache shares the function's cache and statistics
+    r1 = run_sync(ia.m("y1"))
+    r2 = run_sync(KA.m(ia, "y1"))
+    is_.m("y1")
+    KS.m(is_, "y1")
+    if r1 != r2 or tuple(ia.m.cache_info()) != tuple(is_.m.cache_info()) or tuple(ca.cache_info()) != tuple(ia.m.cache_info()):
+        viols.append({"key": "lru_cache/attributes", "msg": f"{head}: bound and unbound access do not share one cache: "
+                                                             f"{r1} {r2} {tuple(ca.cache_info())}"})
+    ia.m.cache_clear()
+    if tuple(ca.cache_info())[:2] != (0, 0):
+        viols.append({"key": "lru_cache/attributes", "msg": f"{head}: cache_clear through the bound method did not clear"})
+    stats["attribute_cases"] += 1
+    return {"violations": viols, "nontrivial": True, "sig": ("attrs", str(case))}
+
+
 def run_case(case, stats: Counter):
     if case.get("kind") == "reentrant":
         return run_reentrant(case, stats)
+    if case.get("kind") == "attrs":
+        return run_attrs(case, stats)
     CTX.reset()
     env = build(case)
     ba, bs, bm = env["backends"]
